@@ -189,8 +189,9 @@ class BlockDiagLinearOperator(BlockLinearOperator, metaclass=_MetaBlockDiagLinea
         # this is trivial if we multiply two BlockDiagLinearOperator with matching block sizes
         if isinstance(other, BlockDiagLinearOperator) and self.base_linear_op.shape == other.base_linear_op.shape:
             return BlockDiagLinearOperator(self.base_linear_op @ other.base_linear_op)
-        # special case if we have a DiagLinearOperator
-        if isinstance(other, DiagLinearOperator):
+        # special case if we have a DiagLinearOperator of the same shape (the diagonal is then re-viewed block by block;
+        # any other shape - other size, broadcasting batch - goes through the generic, shape-checked route)
+        if isinstance(other, DiagLinearOperator) and other.shape == self.shape:
             # matmul is going to be cheap because of the special casing in DiagLinearOperator
             diag_reshape = other._diag.view(*self.base_linear_op.shape[:-1])
             diag = DiagLinearOperator(diag_reshape)
